@@ -26,9 +26,13 @@ META = {
                   'Model/PyQuery.lean on every run, and Lemmas/QueryX*.lean prove the translated programs equal to the plan functions of the hand model '
                   '(C11_translated_*: _mungeOrderBy, the munging of lists / tuples, __init__, _getConnection, clone, orderBy, reversed, distinct, newClause, '
                   'filter, AND, OR, getOne, __iter__, lazyIter, Iteration.next, accumulate, accumulateMany, accumulateOne, sum/min/max/avg, count, '
-                  'accumulateSelect and the Select clone chain, DESC.__sqlrepr__ (one level), _str_or_sqlrepr, selectBy) for all inputs; '
-                  'translated but not yet proved (still tied by extracted constants + text correspondence): _SO_columnClause, _SO_selectOneAlt, '
-                  '_SO_fetchAlternateID, SODatabaseIndex.get, queryForSelect, Select.__init__, the ORDER BY statement of Select.__sqlrepr__'),
+                  'accumulateSelect and the Select clone chain, DESC.__sqlrepr__ (fully, fuel-iterated) and _str_or_sqlrepr, the ORDER BY statement of '
+                  'Select.__sqlrepr__ = orderKeys, _SO_columnClause = columnClause (selectBy_sem restated on it), selectBy, _SO_selectOneAlt, '
+                  '_SO_fetchAlternateID (idxName=None), SODatabaseIndex.get(**kw); composed chains with the method calls resolved by the translated '
+                  'callees: reversed()/distinct() -> clone -> __init__ represents Sel.rev / Sel.dist, sum/min/max/avg -> accumulateOne -> accumulateMany '
+                  '-> the item text of aggPlan) for all inputs, plus kernel-evaluated runs of the interpreter on concrete inputs; '
+                  'translated but not proved (tied by extracted constants + text correspondence): queryForSelect, Select.__init__, the unique-index '
+                  'branch (idxName given) of _SO_fetchAlternateID, SODatabaseIndex.get(*args)'),
     'level_text': ('Theorems C11_*: for every table (any size, any contents, NULLs and duplicates), every filter, every order '
                    'specification (strings with or without the "-" prefix, column names, raw strings, DESC nests, lists), any number '
                    'of reversed() calls, distinct or not: the rows the plan denotes are a permutation of the filtered (distinct) rows '
@@ -62,7 +66,8 @@ META = {
                  'window (LIMIT/OFFSET) is left out: C10'],
     'assumptions': ['translated code: every call into another object is a parameter of the interpreter (Model/QueryX.lean header): the constructors DESC / '
                     'SQLConstant / SQLOp only store their arguments, string_type is str, columns have no from_python converter, tablesUsedSet / set.add / '
-                    'list(set) / repr / sqlrepr of non-DESC values / the database (queryOne, cursor.fetchone) are arbitrary functions; each theorem states '
+                    'list(set) / repr / sqlrepr of non-DESC values / the database (queryOne, cursor.fetchone) are arbitrary functions; _SO_columnClause: the Python names '
+                    'id / column names / foreign names of the class are distinct (NoClash) and an instance used as a value renders as its id; each theorem states '
                     'what the method calls it makes return; assert / raise messages are not evaluated; one alias (self.ops = ops) is modelled by write-through',
                     'a SelectResults object is a description of a query, not a snapshot: the model evaluates it as a function of the current table, '
                     'and the harness ties that by re-evaluating retained objects after mutations',
